@@ -115,7 +115,7 @@ def r_empty_decimal(ctx, rid='R11.7'):
             ctx.ob(rid, 'conv:' + ty, False, 'converter body available', fn.where(t.get('line')), 'no MIR for ' + path)
             continue
         conv = fx.F[path]
-        rows = guards.decision_table(ctx, conv)
+        rows = guards.decision_table(ctx, conv, plain=True)
         arg = conv.names.get(1, 's')
         test_t, test_f = 'is_empty(%s)=T' % arg, 'is_empty(%s)=F' % arg
         err = [r for r in rows if r['out'].startswith('err') and test_t in r['conds']]
@@ -147,7 +147,7 @@ def check(ctx):
     # ranges of the sub-byte constructors, read from the decision table rows of the current tree
     for name, hi in (('u1', 1), ('u2', 3), ('u4', 15)):
         fn = ctx.anchor(fx, 'value::UIntValue::' + name)
-        rows = guards.decision_table(ctx, fn)
+        rows = guards.decision_table(ctx, fn, plain=True)
         okr = [r for r in rows if r['out'].startswith('ok')]
         err = [r for r in rows if r['out'].startswith('err')]
         txt = ' '.join(c for r in rows for c in r['conds'])
